@@ -81,6 +81,7 @@ type Result struct {
 	LoggedPanic   string
 	BreakBypass   int // a "break" skipped an action that was holding an event
 	TimeoutToNonHolder int
+	FedAtHeartbeat     int // records handed to In between the heartbeat's snapshot and tryUnblock
 }
 
 // Sim is one execution of a plan.
@@ -105,6 +106,9 @@ type Sim struct {
 	procsActive map[string]int
 	procActions map[pipeline.ActionPluginController][]*simAction
 	multiHold   bool
+	gateOn      bool
+	hbMu        sync.Mutex
+	hbSlot      []*pendingFeed
 
 	outMain *simOutput
 	outDQ   *simOutput
@@ -793,11 +797,17 @@ func Run(plan *Plan) *Result {
 			PluginRuntimeInfo: &pipeline.PluginRuntimeInfo{Plugin: s.outDQ, ID: "sim_dq"},
 		})
 	}
-	if plan.HeartbeatStallUs > 0 {
-		d := time.Duration(plan.HeartbeatStallUs) * time.Microsecond
+	hasAtHB := false
+	for _, src := range plan.Sources {
+		for _, r := range src.Records {
+			hasAtHB = hasAtHB || r.AtHeartbeat
+		}
+	}
+	if plan.HeartbeatStallUs > 0 || hasAtHB {
+		s.gateOn = true
 		pipeline.VerifSetGate(func(point string) {
 			if point == "streamer.heartbeat.beforeUnblock" {
-				time.Sleep(d)
+				s.heartbeatGate()
 			}
 		})
 		defer pipeline.VerifSetGate(nil)
@@ -946,6 +956,13 @@ func (s *Sim) idle() bool {
 	return true
 }
 
+type pendingFeed struct {
+	src   *Source
+	ri    int
+	taken bool
+	done  chan struct{}
+}
+
 func (s *Sim) feed(src *Source) {
 	for ri := range src.Records {
 		r := &src.Records[ri]
@@ -956,6 +973,70 @@ func (s *Sim) feed(src *Source) {
 				time.Sleep(time.Duration(r.GapUs) * time.Microsecond)
 			}
 		}
+		if r.AtHeartbeat && s.gateOn {
+			pf := &pendingFeed{src: src, ri: ri, done: make(chan struct{})}
+			s.hbMu.Lock()
+			s.hbSlot = append(s.hbSlot, pf)
+			s.hbMu.Unlock()
+			tm := time.NewTimer(260 * time.Millisecond) // one heartbeat period + slack
+			select {
+			case <-pf.done:
+				tm.Stop()
+				continue
+			case <-tm.C:
+			}
+			s.hbMu.Lock()
+			withdrawn := !pf.taken
+			pf.taken = true
+			s.hbMu.Unlock()
+			if !withdrawn {
+				<-pf.done
+				continue
+			}
+		}
+		s.feedRecord(src, ri)
+	}
+}
+
+// heartbeatGate runs in the streamer heartbeat goroutine right before a tryUnblock call.
+func (s *Sim) heartbeatGate() {
+	s.hbMu.Lock()
+	var pf *pendingFeed
+	for _, x := range s.hbSlot {
+		if !x.taken {
+			x.taken = true
+			pf = x
+			break
+		}
+	}
+	s.hbMu.Unlock()
+	if pf != nil {
+		s.mu.Lock()
+		s.res.FedAtHeartbeat++
+		s.mu.Unlock()
+		// In may block on a full pool and the heartbeat must not be held up by that (held events are
+		// only flushed by its time-outs): feed from a helper goroutine and go on after a short while
+		fed := make(chan struct{})
+		go func() {
+			s.feedRecord(pf.src, pf.ri)
+			close(pf.done)
+			close(fed)
+		}()
+		tm := time.NewTimer(2 * time.Millisecond)
+		select {
+		case <-fed:
+		case <-tm.C:
+		}
+		tm.Stop()
+	}
+	if s.plan.HeartbeatStallUs > 0 {
+		time.Sleep(time.Duration(s.plan.HeartbeatStallUs) * time.Microsecond)
+	}
+}
+
+func (s *Sim) feedRecord(src *Source, ri int) {
+	r := &src.Records[ri]
+	{
 		st := s.ev[r.ID]
 		data := r.Render(true)
 		s.mu.Lock()
